@@ -11,7 +11,8 @@
 //!        replays request sequences ({"c": case index, "reqs": [...]}) from a fresh signer, no
 //!        snapshots: one record per step {seq, step, c, pre, req, ok, post}.
 //!
-//! Levels:  struct    a bare `VelocityControl::new_with_intervals(L, B, K)`
+//! Levels:  struct    a bare `VelocityControl::new_with_intervals(L, B, K)` (or, in the cases with a
+//!                     spec change, `VelocityControl::new(spec)` of a real interval type)
 //!          approver  `VelocityApprover<NegativeApprover>` with the real Hourly/Daily spec
 //!          node      a real `Node` over a KVV store: add_invoice / add_keysend /
 //!                    check_onchain_tx, restart = Node::restore_nodes from a copy of the store
@@ -33,6 +34,7 @@ use lightning_signer::invoice::Invoice;
 use lightning_signer::lightning_invoice::{Currency, InvoiceBuilder};
 use lightning_signer::node::{PaymentState, RoutedPayment};
 use lightning_signer::persist::Persist;
+use lightning_signer::policy::simple_validator::SimplePolicy;
 use lightning_signer::util::clock::{Clock, ManualClock};
 use lightning_signer::util::velocity::{
     VelocityControl, VelocityControlIntervalType, VelocityControlSpec,
@@ -81,6 +83,10 @@ struct Case {
     cap: u64,
     /// named payment hashes per kind (invoice / keysend) that requests may re-use
     ns: u64,
+    /// spec change: the control / node is CREATED and USED under this other spec (kind, pay, fee),
+    /// then the case's spec is installed (update_spec / restart with the changed policy); the
+    /// case's root is the state after that change
+    from: Option<(String, Ctl, Ctl)>,
     reqs: Vec<Req>,
 }
 
@@ -115,6 +121,10 @@ fn load_cases(path: &str) -> Vec<Case> {
             t0: c["t0"].as_u64().unwrap(),
             cap: c["cap"].as_u64().unwrap(),
             ns: c["ns"].as_u64().unwrap_or(0),
+            from: match c["from"]["kind"].as_str() {
+                None | Some("none") => None,
+                Some(k) => Some((k.to_string(), ctl_of(&c["from"]["pay"]), ctl_of(&c["from"]["fee"]))),
+            },
             reqs: c["reqs"].as_array().unwrap().iter().map(req_of).collect(),
         })
         .collect()
@@ -210,17 +220,76 @@ struct World {
     last_detail: String,
 }
 
+fn policy_of(case: &Case) -> SimplePolicy {
+    let mut policy = default_policy(Network::Regtest);
+    policy.global_velocity_control = case.spec(&case.pay);
+    policy.fee_velocity_control = case.spec(&case.fee);
+    policy
+}
+
 impl World {
+    /// A case with a spec change: the system is built and used under the OLD spec (an approval of
+    /// the full limit of every limited control), then the case's spec is installed the way the code
+    /// does it (struct: `update_spec`; node: restore from the store with the changed policy, i.e.
+    /// `Node::new_full` -> `update_spec`), and at node level one zero-amount payment is approved so
+    /// that the store holds the controls of the new spec.  Everything after that is the case's
+    /// alphabet; `Restart` keeps the NEW spec.
     fn new(case: &Case) -> World {
+        let (kind, pay, fee) = match &case.from {
+            None => return World::build(case),
+            Some(f) => f.clone(),
+        };
+        let mut old = case.clone();
+        old.kind = kind;
+        old.pay = pay;
+        old.fee = fee;
+        old.from = None;
+        let mut w = World::build(&old);
+        let node = case.level == "node";
+        if old.pay.l != TOP {
+            let op = if node { "AddKeysend" } else { "Insert" };
+            let r = w.apply(&Req { op: op.to_string(), dt: 0, a: old.pay.l, h: 0 });
+            assert_eq!(r, 1, "approval under the old spec: {}", w.last_detail);
+        }
+        if node && old.fee.l != TOP {
+            let r = w.apply(&Req { op: "Onchain".to_string(), dt: 0, a: old.fee.l, h: 0 });
+            assert_eq!(r, 1, "fee approval under the old spec: {}", w.last_detail);
+        }
+        w.case = case.clone();
+        let newsys = match &mut w.sys {
+            Sys::Struct { ctl, .. } => {
+                ctl.update_spec(&case.spec(&case.pay));
+                None
+            }
+            Sys::Node { fx } => {
+                fx.policy = Some(policy_of(case));
+                Some(Sys::Node { fx: fx.restart_copy().expect("restart with the changed policy") })
+            }
+            Sys::Approver { .. } => panic!("no spec change at approver level"),
+        };
+        if let Some(sys) = newsys {
+            w.sys = sys;
+            let r = w.apply(&Req { op: "AddKeysend".to_string(), dt: 0, a: 0, h: 0 });
+            assert_eq!(r, 1, "zero payment under the new spec: {}", w.last_detail);
+        }
+        w
+    }
+
+    fn build(case: &Case) -> World {
         let secp = Secp256k1::new();
         let payee = PublicKey::from_secret_key(&secp, &SecretKey::from_slice(&[43u8; 32]).unwrap());
         let sys = match case.level.as_str() {
             "struct" => Sys::Struct {
-                ctl: VelocityControl::new_with_intervals(
-                    enc_amt(case.pay.l, case.unit),
-                    (case.pay.b * case.scale) as u32,
-                    case.pay.k,
-                ),
+                ctl: if case.kind == "intervals" {
+                    VelocityControl::new_with_intervals(
+                        enc_amt(case.pay.l, case.unit),
+                        (case.pay.b * case.scale) as u32,
+                        case.pay.k,
+                    )
+                } else {
+                    // a real interval type (the cases with a spec change)
+                    VelocityControl::new(case.spec(&case.pay))
+                },
                 now: case.t0,
             },
             "approver" => {
@@ -230,10 +299,7 @@ impl World {
                 Sys::Approver { app, clock, spec }
             }
             "node" => {
-                let mut policy = default_policy(Network::Regtest);
-                policy.global_velocity_control = case.spec(&case.pay);
-                policy.fee_velocity_control = case.spec(&case.fee);
-                let fx = NodeFx::new(Network::Regtest, Some(policy));
+                let fx = NodeFx::new(Network::Regtest, Some(policy_of(case)));
                 fx.clock.set(Duration::from_secs(case.t0));
                 Sys::Node { fx }
             }
@@ -331,6 +397,11 @@ impl World {
                     let back: vls_persist::model::VelocityControl =
                         serde_json::from_str(&text).expect("deserialize control");
                     *ctl = back.into();
+                    if self.case.kind != "intervals" {
+                        // a control of a real interval type: what Node::new_full does with a
+                        // restored control - the (unchanged) policy's spec is applied to it
+                        ctl.update_spec(&self.case.spec(&self.case.pay));
+                    }
                     1
                 } else {
                     unreachable!()
